@@ -1,7 +1,7 @@
 import MakoModel.Basic.Wire
 import MakoModel.Cache.Model
 /-!
-Driver handler for the cache model: `cache run <passContext 0|1> <hasSet 0|1> <regionKey> <nT> <tmpl>… <nOps> <op>…`
+Driver handler for the cache model: `cache run <passContext 0|1> <regionKey> <nT> <tmpl>… <nOps> <op>…`
 
 All tokens are separated by single spaces; `str` is the wire encoding of a string.
 
@@ -18,7 +18,7 @@ kinds: 0 page, 1 top-level def, 2 nested def, 3 named block, 4 anonymous block. 
 function is "value of the keyword `regionKey`".
 
 Answer: the steps joined by ` | `; a step is `resp T n tick… C n call…` with
-`resp := o str | g none | g some str | u | x | n` (`n`: NotImplementedError), `call := goc|set|get|inv cid key [val] nkw (key argv)*`,
+`resp := o str | g none | g some str | u | x`, `call := goc|set|get|inv cid key [val] nkw (key argv)*`,
 keyword arguments sorted by key (code point order).
 -/
 namespace MakoModel.Cache.Drv
@@ -196,7 +196,6 @@ def encResp : Resp → String
   | .got (some v) => "g some " ++ encStr v
   | .unit => "u"
   | .noTemplate => "x"
-  | .notImplemented => "n"
 
 def encCounted (xs : List String) : String :=
   toString xs.length ++ String.join (xs.map fun x => " " ++ x)
@@ -214,14 +213,12 @@ def runSteps (w : World Reg) : St Reg → List Op → List String
 def handle : Handler
   | "run" :: ts => do
     let (pass, ts) ← pBool ts
-    let (hasSet, ts) ← pBool ts
     let (rk, ts) ← pStr ts
     let (tmpls, ts) ← pList pTmpl ts
     let (ops, ts) ← pList pOp ts
     if !ts.isEmpty then none else
-    let w : World Reg := { be := { regionOf := fun kw => aGet kw rk, passContext := pass, hasSet := hasSet }, tmpls := tmpls }
+    let w : World Reg := { be := { regionOf := fun kw => aGet kw rk, passContext := pass }, tmpls := tmpls }
     pure (" | ".intercalate (runSteps w (St.init w) ops))
-  | ["const"] => pure (encBool Generated.Cache.beakerImplDefinesSet)
   | ["moduleid", u] => do let u ← decStr u; pure (encStr (moduleId u))
   | ["fname", kind, name, line] => do
     let (k, _) ← pKind [kind]
